@@ -402,6 +402,49 @@ fn alphabet(remaining: usize, thorough: bool) -> Vec<Op> {
     ops
 }
 
+fn op_code(op: &Op) -> Value {
+    let (t, a): (u8, u32) = match *op {
+        Op::ReadU8 => (0, 0),
+        Op::PeekU8 => (1, 0),
+        Op::ReadBool => (2, 0),
+        Op::ReadU16 => (3, 0),
+        Op::ReadU32 => (4, 0),
+        Op::ReadU64 => (5, 0),
+        Op::ReadU128 => (6, 0),
+        Op::ReadUsize => (7, 0),
+        Op::HasMore => (8, 0),
+        Op::Slice(n) => (9, n),
+        Op::Vec(n) => (10, n),
+        Op::Str(n) => (11, n),
+        Op::Eor(n) => (12, n),
+        Op::Arr(n) => (13, n as u32),
+        Op::ManyU16(n) => (14, n),
+    };
+    json!([t, a])
+}
+
+fn op_decode(v: &Value) -> Option<Op> {
+    let (t, a) = (v[0].as_u64()?, v[1].as_u64()? as u32);
+    Some(match t {
+        0 => Op::ReadU8,
+        1 => Op::PeekU8,
+        2 => Op::ReadBool,
+        3 => Op::ReadU16,
+        4 => Op::ReadU32,
+        5 => Op::ReadU64,
+        6 => Op::ReadU128,
+        7 => Op::ReadUsize,
+        8 => Op::HasMore,
+        9 => Op::Slice(a),
+        10 => Op::Vec(a),
+        11 => Op::Str(a),
+        12 => Op::Eor(a),
+        13 => Op::Arr(a as u16),
+        14 => Op::ManyU16(a),
+        _ => return None,
+    })
+}
+
 pub fn run(run: &Arc<Run>) {
     let tier = run.tier();
     let nstreams = tier.pick(STREAM_LENS.len() * 2, STREAM_LENS.len() * 3);
@@ -414,7 +457,7 @@ pub fn run(run: &Arc<Run>) {
     }
     let thorough = tier.is_thorough();
     let depth = tier.pick(3, 5);
-    let stats = bfs(
+    let stats = kit::engine::bfs_r(
         run,
         "read_adapter",
         init,
@@ -451,7 +494,14 @@ pub fn run(run: &Arc<Run>) {
             succ
         },
         |s: &St| s.key,
-        |s: &St| json!({"stream_len": STREAM_LENS[s.stream as usize % STREAM_LENS.len()], "stream_variant": s.stream as usize / STREAM_LENS.len(), "chunking": format!("{:?}", CHUNKINGS[s.chunk as usize]), "history": s.hist.iter().map(|o| format!("{:?}", o)).collect::<Vec<_>>()}),
+        |s: &St| json!({"stream_len": STREAM_LENS[s.stream as usize % STREAM_LENS.len()], "stream_variant": s.stream as usize / STREAM_LENS.len(), "chunking": format!("{:?}", CHUNKINGS[s.chunk as usize]), "history": s.hist.iter().map(|o| format!("{:?}", o)).collect::<Vec<_>>(), "replay": {"stream": s.stream, "chunk": s.chunk, "hist": s.hist.iter().map(op_code).collect::<Vec<_>>()}}),
+        |v: &Value| {
+            let r = &v["replay"];
+            let (stream, chunk) = (r["stream"].as_u64()? as u8, r["chunk"].as_u64()? as u8);
+            let hist: Vec<Op> = r["hist"].as_array()?.iter().map(op_decode).collect::<Option<Vec<_>>>()?;
+            let o = execute(stream, chunk, &hist);
+            Some(St { stream, chunk, hist, key: o.key, dead: false })
+        },
     );
     run.require(stats.states > 1000, "C13: state space suspiciously small");
 }
